@@ -671,6 +671,9 @@ func (s *Session) initMemManager() error {
 		}
 		if qm, err = createQueueManager(s.config.QueuePath, s.config.QueueCap); err != nil {
 			os.Remove(s.config.QueuePath)
+			// give the reference on the buffer manager back, nobody else will:
+			// the session is never created, so its clean-up never runs.
+			addGlobalBufferManagerRefCount(bm.path, -1)
 			return fmt.Errorf("create share memory queue manager failed ,error=%w", err)
 		}
 	} else {
@@ -679,6 +682,7 @@ func (s *Session) initMemManager() error {
 			return fmt.Errorf("create share memory buffer manager failed ,error=%w", err)
 		}
 		if qm, err = createQueueManagerWithMemFd(s.config.QueuePath, s.config.QueueCap); err != nil {
+			addGlobalBufferManagerRefCount(bm.path, -1)
 			return fmt.Errorf("create share memory queue manager failed ,error=%w", err)
 		}
 	}
